@@ -537,8 +537,8 @@ Proof. repeat split; reflexivity. Qed.
 
 (* ====================================================================================
    Fourth pass.  location_bridges_origin(location, allow_reversing=True): the answer and the ARGUMENT
-   afterwards (specification 119); offset_location on a ring: the transcription-order clause of
-   specification 107, the guarded merge loop and the two recorded finding classes.
+   afterwards (specification 119); offset_location on a ring after the repair of findings C04-K2 / C04-K3:
+   the merge loop without a guard, and specification 107 incl. its transcription-order clause for every input.
    ==================================================================================== *)
 
 (* the answer: the exon order is invalid for the strand and, on the reverse strand, so is the reversed order *)
@@ -581,39 +581,49 @@ Theorem C04_spec_bridges_reversing_sound : forall a ans a', check_bridges_revers
 Proof. exact check_bridges_reversing_sound. Qed.
 Print Assumptions C04_spec_bridges_reversing_sound.
 
-(* the final merge loop of offset_location, GUARDED: all parts proper and of one strand, and no touching pair of
-   parts directly after a touching pair -> the loop succeeds and keeps exactly the bases and the length *)
-Theorem C04_offset_merge_guarded : forall st p0 l,
+(* the final merge loop of offset_location after the repair of findings C04-K2 / C04-K3 (formerly
+   C04_offset_merge_guarded, with the guard "no touching pair directly after a touching pair"): for EVERY list of
+   proper parts of one strand the loop succeeds and keeps exactly the bases, the length and the bases in
+   transcription order (forward parts are merged into the last MERGED part, reverse-strand parts downwards) *)
+Theorem C04_offset_merge : forall st p0 l,
   Forall (fun q => ps q <= pe q /\ pst q = st) (p0 :: l) ->
-  touching_run (p0 :: l) = false ->
   exists r, merge_adjacent p0 [p0] l = Ok r /\
-    (forall x, in_loc x r = in_loc x (p0 :: l)) /\ llen r = llen (p0 :: l).
-Proof. exact merge_adjacent_guarded. Qed.
-Print Assumptions C04_offset_merge_guarded.
+    (forall x, in_loc x r = in_loc x (p0 :: l)) /\ llen r = llen (p0 :: l) /\
+    tx_of (st =? -1) r = tx_of (st =? -1) (p0 :: l).
+Proof. exact merge_adjacent_unguarded. Qed.
+Print Assumptions C04_offset_merge.
 
-(* without the guard the statement "shifting keeps the bases and the length" is FALSE for the code as it is
-   (finding offset_merge_drops_part): join{[15:20),[0:5),[5:9)} +5 on a ring of 20 gives [5:14) *)
-Theorem C04_offset_merge_drops_part_refuted :
-  exists a off N r,
-    pre_offset a (Some N) = true /\ offset_location a off (Some N) = Ok r /\
-    llen r <> llen a /\ in_loc 15 a = true /\ in_loc ((15 + off) mod N) r = false /\
-    check_offset_ring N a off (Ok r) = 4 /\ offset_class a off (Some N) = 1.
-Proof. exact offset_merge_drops_part_refuted. Qed.
-Print Assumptions C04_offset_merge_drops_part_refuted.
+(* offset_location on a ring, ANY number of parts (formerly refuted by C04_offset_merge_drops_part_refuted): every
+   location of one strand with non-empty disjoint parts inside the record is shifted successfully; the result has
+   non-empty disjoint parts inside the record, the same length and strand, and exactly the rotated bases *)
+Theorem C04_offset_ring_multi : forall N a off, pre_offset a (Some N) = true ->
+  exists r, offset_location a off (Some N) = Ok r /\
+    (r <> [] /\ Forall (fun p => 0 <= ps p /\ ps p < pe p /\ pe p <= N) r) /\
+    pairwise_disjoint r /\ llen r = llen a /\
+    (forall p0, hd_error a = Some p0 -> Forall (fun q => pst q = pst p0) r) /\
+    (forall x, 0 <= x < N -> (base_of r ((x + off) mod N) <-> base_of a x)).
+Proof.
+  intros N a off Hpre. pose proof (offset_ring_spec_all N a off Hpre) as H.
+  destruct (check_offset_ring_sound N a off _ H) as [r [E Hr]]. exists r. split; assumption.
+Qed.
+Print Assumptions C04_offset_ring_multi.
 
-(* "shifting rotates the location" read on the bases in transcription order is FALSE for a reverse-strand exon
-   crossing the wrap point (finding offset_reverse_wrap_order): [13:18)(-) +5 on a ring of 20 gives
-   join{[18:20)(-),[0:3)(-)} - the right bases, but not recognised as crossing the origin, and connected to the
-   whole record *)
-Theorem C04_offset_reverse_wrap_order_refuted :
-  exists p off N r,
-    pst p = -1 /\ pre_offset [p] (Some N) = true /\ offset_location [p] off (Some N) = Ok r /\
-    rotated_bases N off r [p] = true /\
-    tx_bases r <> map (fun x => (x + off) mod N) (tx_bases [p]) /\
-    bridges r = false /\ connect_locations [r] (Some N) = Ok [mkPart 0 N (-1)] /\
-    check_offset_ring N [p] off (Ok r) = 7 /\ offset_class [p] off (Some N) = 2.
-Proof. exact offset_reverse_wrap_order_refuted. Qed.
-Print Assumptions C04_offset_reverse_wrap_order_refuted.
+(* "shifting rotates the location" read on the bases in TRANSCRIPTION order (formerly refuted by
+   C04_offset_reverse_wrap_order_refuted): for every such location that is not the whole record, the k-th
+   transcribed base of the result is the rotated k-th transcribed base of the input - exons as listed, reverse
+   strand downwards; a reverse-strand exon crossing the wrap point comes out with the part after the origin first *)
+Theorem C04_offset_ring_order : forall N a off, pre_offset a (Some N) = true -> llen a <> N ->
+  exists r, offset_location a off (Some N) = Ok r /\
+    tx_bases r = map (fun x => (x + off) mod N) (tx_bases a).
+Proof. exact offset_ring_tx. Qed.
+Print Assumptions C04_offset_ring_order.
+
+(* specification 107 (check_offset_ring, all seven clauses incl. the transcription-order clause 7) holds for the
+   model on EVERY input that meets its precondition - no finding class is excluded any more *)
+Theorem C04_offset_ring_spec : forall N a off, pre_offset a (Some N) = true ->
+  check_offset_ring N a off (offset_location a off (Some N)) = 0.
+Proof. exact offset_ring_spec_all. Qed.
+Print Assumptions C04_offset_ring_spec.
 
 (* soundness of the transcription-order clause (7) of specification 107 *)
 Theorem C04_spec_offset_ring_order_sound : forall N a off out,
@@ -633,11 +643,29 @@ Example C04_ex_bridges_reversing :
     = (false, [mkPart 12 15 (-1); mkPart 6 9 (-1); mkPart 0 3 (-1)]).
 Proof. vm_compute. split; reflexivity. Qed.
 
-Example C04_ex_offset_merge_guarded :
-  touching_run [mkPart 15 20 1; mkPart 0 3 1; mkPart 3 9 1] = false /\
+(* the witnesses of the repaired findings C04-K2 offset_merge_drops_part and C04-K3 offset_reverse_wrap_order *)
+Example C04_ex_offset_merge :
+  (* three touching parts in a row: all merged, nothing lost (was [5:14)) *)
+  offset_location [mkPart 15 20 1; mkPart 0 5 1; mkPart 5 9 1] 5 (Some 20) = Ok [mkPart 0 14 1] /\
   merge_adjacent (mkPart 15 20 1) [mkPart 15 20 1] [mkPart 0 3 1; mkPart 3 9 1]
-    = Ok [mkPart 15 20 1; mkPart 0 9 1].
-Proof. vm_compute. split; reflexivity. Qed.
+    = Ok [mkPart 15 20 1; mkPart 0 9 1] /\
+  (* reverse strand: merged downwards only *)
+  merge_adjacent (mkPart 8 9 (-1)) [mkPart 8 9 (-1)] [mkPart 5 8 (-1); mkPart 3 5 (-1)] = Ok [mkPart 3 9 (-1)] /\
+  merge_adjacent (mkPart 3 5 (-1)) [mkPart 3 5 (-1)] [mkPart 5 8 (-1)] = Ok [mkPart 3 5 (-1); mkPart 5 8 (-1)].
+Proof. vm_compute. repeat split; reflexivity. Qed.
+
+Example C04_ex_offset_reverse_wrap_order :
+  (* a reverse-strand exon crossing the wrap point: the part after the origin first (was join{[18:20),[0:3)}),
+     recognised as crossing the origin, connected to the same 5-base arc *)
+  offset_location [mkPart 13 18 (-1)] 5 (Some 20) = Ok [mkPart 0 3 (-1); mkPart 18 20 (-1)] /\
+  bridges [mkPart 0 3 (-1); mkPart 18 20 (-1)] = true /\
+  connect_locations [[mkPart 0 3 (-1); mkPart 18 20 (-1)]] (Some 20) = Ok [mkPart 18 20 1; mkPart 0 3 1] /\
+  check_offset_ring 20 [mkPart 13 18 (-1)] 5 (Ok [mkPart 0 3 (-1); mkPart 18 20 (-1)]) = 0 /\
+  (* the former output violates clause 7 *)
+  check_offset_ring 20 [mkPart 13 18 (-1)] 5 (Ok [mkPart 18 20 (-1); mkPart 0 3 (-1)]) = 7 /\
+  (* and shifted off the origin again the two halves are re-joined (was join{[5:8),[3:5)}) *)
+  offset_location [mkPart 0 3 (-1); mkPart 18 20 (-1)] 5 (Some 20) = Ok [mkPart 3 8 (-1)].
+Proof. vm_compute. repeat split; reflexivity. Qed.
 
 (* the third reported input, Record.extend_location of join{[30:100),[0:5)} by 31 on a ring of 100, lies in the
    recorded class extend_near_full (class 1): bases right, parts overlapping *)
